@@ -176,6 +176,8 @@ func (s *noiseState) setNoisy(c string, v bool) {
 }
 
 type noiseFn struct {
+	sp    *samplerProv
+	depth int
 	c       *core.Ctx
 	pk      *packages.Package
 	info    *types.Info
@@ -380,6 +382,14 @@ func (nf *noiseFn) transferCall(call *ast.CallExpr, st *noiseState) {
 			}
 			nf.applySampler(st, c, k, name, call.Pos())
 			return
+		}
+	}
+	// a helper of the module that masks some of its polynomial parameters on every path
+	if f := calleeFunc(nf.info, call); f != nil && f.Pkg() != nil && strings.HasPrefix(f.Pkg().Path(), core.ModPath) && nf.sp != nil {
+		if pp := f.Pkg().Path(); !strings.HasSuffix(pp, "/ring") && !strings.HasSuffix(pp, "/ring/ringqp") {
+			for j := range noisyParams(nf.c, nf.sp, f, nf.depth) {
+				nf.applySampler(st, cellArg(j), skError, "ReadAndAdd", call.Pos())
+			}
 		}
 	}
 	recvT := nf.info.TypeOf(sel.X)
@@ -893,6 +903,128 @@ func (sp *samplerProv) kindOfExpr(info *types.Info, fd *ast.FuncDecl, e ast.Expr
 }
 
 // emitters that must read from an error sampler (frozen from the reference tree; one line of reason each).
+// prepNoiseFn builds the interpreter state of one function (alias classification of its polynomial locals).
+func prepNoiseFn(c *core.Ctx, sp *samplerProv, pk *packages.Package, fd *ast.FuncDecl, out *[]ob) *noiseFn {
+	info := pk.TypesInfo
+	fkey := core.FuncKey(pk, fd)
+	nf := &noiseFn{c: c, pk: pk, info: info, fd: fd, fkey: fkey, sp: sp, static: map[types.Object]ast.Expr{}, multi: map[types.Object]bool{}, out: out, checked: map[string]bool{}, scoped: map[string]bool{}}
+	nf.skind = func(e ast.Expr) samplerKind { return sp.kindOfExpr(info, fd, e, 0) }
+	// alias classification of polynomial locals
+	defs := map[types.Object][]ast.Expr{}
+	ast.Inspect(fd.Body, func(n ast.Node) bool {
+		switch x := n.(type) {
+		case *ast.AssignStmt:
+			if len(x.Lhs) == len(x.Rhs) {
+				for i, l := range x.Lhs {
+					if id, ok := unparen(l).(*ast.Ident); ok {
+						o := info.Defs[id]
+						if o == nil {
+							o = info.Uses[id]
+						}
+						if o != nil && polyish(o.Type()) {
+							defs[o] = append(defs[o], x.Rhs[i])
+						}
+					}
+				}
+			}
+		case *ast.ValueSpec:
+			for _, nm := range x.Names {
+				if o := info.Defs[nm]; o != nil && polyish(o.Type()) && len(x.Values) == 0 {
+					defs[o] = append(defs[o], nil)
+				}
+			}
+		}
+		return true
+	})
+	for o, ds := range defs {
+		if len(ds) == 1 && ds[0] != nil {
+			// only alias-like right-hand sides (no calls other than El())
+			if _, isCall := unparen(ds[0]).(*ast.CallExpr); !isCall {
+				nf.static[o] = ds[0]
+				continue
+			}
+		}
+		nf.multi[o] = true
+	}
+	nf.expand = map[string][]aliasTarget{}
+	empty := &noiseState{map[string]bool{}, map[types.Object]string{}, map[string]token.Pos{}}
+	for o, ds := range defs {
+		if !nf.multi[o] {
+			continue
+		}
+		for _, d := range ds {
+			if d == nil {
+				continue
+			}
+			if cl, ok := unparen(d).(*ast.CompositeLit); ok {
+				for _, el := range cl.Elts {
+					if kv, ok := el.(*ast.KeyValueExpr); ok {
+						if k, ok := kv.Key.(*ast.Ident); ok {
+							if t := nf.cell(kv.Value, empty, 0); t != "" {
+								nf.expand[o.Name()] = append(nf.expand[o.Name()], aliasTarget{"." + k.Name, t})
+							}
+						}
+					}
+				}
+				continue
+			}
+			if t := nf.cell(d, empty, 0); t != "" && !strings.HasPrefix(t, "var:") {
+				nf.expand[o.Name()] = append(nf.expand[o.Name()], aliasTarget{"", t})
+			}
+		}
+	}
+	return nf
+}
+
+// noisyParams: the polynomial parameters of a helper that are masked by an error-sampler draw on every path to its
+// return (so that a block of an emitter extracted into a helper still counts). Memoised; recursion-guarded.
+var noisyParamsMemo = map[*types.Func]map[int]bool{}
+
+func noisyParams(c *core.Ctx, sp *samplerProv, f *types.Func, depth int) map[int]bool {
+	f = funcOrigin(f)
+	if m, ok := noisyParamsMemo[f]; ok {
+		return m
+	}
+	noisyParamsMemo[f] = map[int]bool{}
+	if depth > 3 || f.Pkg() == nil || !strings.HasPrefix(f.Pkg().Path(), core.ModPath) {
+		return nil
+	}
+	var pk *packages.Package
+	var fd *ast.FuncDecl
+	for _, p := range c.Pkgs {
+		if p.Types != f.Pkg() {
+			continue
+		}
+		for _, file := range p.Syntax {
+			for _, d := range file.Decls {
+				if x, ok := d.(*ast.FuncDecl); ok && x.Body != nil && p.TypesInfo.Defs[x.Name] == types.Object(f) {
+					pk, fd = p, x
+				}
+			}
+		}
+	}
+	if fd == nil {
+		return nil
+	}
+	var sink []ob
+	nf := prepNoiseFn(c, sp, pk, fd, &sink)
+	nf.depth = depth + 1
+	st := &noiseState{map[string]bool{}, map[types.Object]string{}, map[string]token.Pos{}}
+	end := nf.exec(fd.Body.List, st, map[types.Object]bool{})
+	res := map[int]bool{}
+	if end != nil && nf.nReads > 0 {
+		sig := f.Type().(*types.Signature)
+		for i := 0; i < sig.Params().Len(); i++ {
+			p := sig.Params().At(i)
+			if polyish(p.Type()) && end.isNoisy(p.Name()) {
+				res[i] = true
+			}
+		}
+	}
+	noisyParamsMemo[f] = res
+	return res
+}
+
 var mustEmit = map[string]string{
 	"core/rlwe.(Encryptor).encryptZeroPk":                          "public-key encryption: both components carry an error",
 	"core/rlwe.(Encryptor).encryptZeroPkNoP":                       "public-key encryption without P",
@@ -936,6 +1068,17 @@ func scanNoise(c *core.Ctx) []ob {
 			}
 			return true
 		})
+		// ... or hands a polynomial to a helper that does
+		if !reads {
+			ast.Inspect(fd.Body, func(n ast.Node) bool {
+				if call, ok := n.(*ast.CallExpr); ok && !reads {
+					if f := calleeFunc(info, call); f != nil && f.Pkg() == pk.Types && len(noisyParams(c, sp, f, 0)) > 0 {
+						reads = true
+					}
+				}
+				return !reads
+			})
+		}
 		_, must := mustEmit[fkey]
 		if must {
 			seen[fkey] = true
@@ -947,72 +1090,7 @@ func scanNoise(c *core.Ctx) []ob {
 			return
 		}
 		nFn++
-		nf := &noiseFn{c: c, pk: pk, info: info, fd: fd, fkey: fkey, static: map[types.Object]ast.Expr{}, multi: map[types.Object]bool{}, out: &out, checked: map[string]bool{}, scoped: map[string]bool{}}
-		nf.skind = func(e ast.Expr) samplerKind { return sp.kindOfExpr(info, fd, e, 0) }
-		// alias classification of polynomial locals
-		defs := map[types.Object][]ast.Expr{}
-		ast.Inspect(fd.Body, func(n ast.Node) bool {
-			switch x := n.(type) {
-			case *ast.AssignStmt:
-				if len(x.Lhs) == len(x.Rhs) {
-					for i, l := range x.Lhs {
-						if id, ok := unparen(l).(*ast.Ident); ok {
-							o := info.Defs[id]
-							if o == nil {
-								o = info.Uses[id]
-							}
-							if o != nil && polyish(o.Type()) {
-								defs[o] = append(defs[o], x.Rhs[i])
-							}
-						}
-					}
-				}
-			case *ast.ValueSpec:
-				for _, nm := range x.Names {
-					if o := info.Defs[nm]; o != nil && polyish(o.Type()) && len(x.Values) == 0 {
-						defs[o] = append(defs[o], nil)
-					}
-				}
-			}
-			return true
-		})
-		for o, ds := range defs {
-			if len(ds) == 1 && ds[0] != nil {
-				// only alias-like right-hand sides (no calls other than El())
-				if _, isCall := unparen(ds[0]).(*ast.CallExpr); !isCall {
-					nf.static[o] = ds[0]
-					continue
-				}
-			}
-			nf.multi[o] = true
-		}
-		nf.expand = map[string][]aliasTarget{}
-		empty := &noiseState{map[string]bool{}, map[types.Object]string{}, map[string]token.Pos{}}
-		for o, ds := range defs {
-			if !nf.multi[o] {
-				continue
-			}
-			for _, d := range ds {
-				if d == nil {
-					continue
-				}
-				if cl, ok := unparen(d).(*ast.CompositeLit); ok {
-					for _, el := range cl.Elts {
-						if kv, ok := el.(*ast.KeyValueExpr); ok {
-							if k, ok := kv.Key.(*ast.Ident); ok {
-								if t := nf.cell(kv.Value, empty, 0); t != "" {
-									nf.expand[o.Name()] = append(nf.expand[o.Name()], aliasTarget{"." + k.Name, t})
-								}
-							}
-						}
-					}
-					continue
-				}
-				if t := nf.cell(d, empty, 0); t != "" && !strings.HasPrefix(t, "var:") {
-					nf.expand[o.Name()] = append(nf.expand[o.Name()], aliasTarget{"", t})
-				}
-			}
-		}
+		nf := prepNoiseFn(c, sp, pk, fd, &out)
 		st := &noiseState{map[string]bool{}, map[types.Object]string{}, map[string]token.Pos{}}
 		end := nf.exec(fd.Body.List, st, map[types.Object]bool{})
 		if end != nil {
